@@ -195,6 +195,8 @@ def run_prog(case, res, stats):
             del port_of[i]
     if undriven:
         D.set_inputs(undriven)
+        if D2 is not None:
+            D2.set_inputs(undriven)
     lines = list(top.lines)
     state = {"bus": 0}
 
